@@ -187,22 +187,26 @@ def run(E: Engine, rep: Report, tier: str) -> dict:
         raise AnalysisError("anchor: Sequence.align no longer calls _delay")
     for l in dl:
         d, ch = arg(l, 0, "duration"), arg(l, 1, "channel")
-        # the common end may be pushed forward by a fixed-point loop until every channel can reach it with a valid delay
-        # (`tf` = loop('tf', max(...), <reachable end>)): the rule reads the loop's initial value
-        fix_loops = [t for t in sym.subterms(d) if len(t) == 4 and t[0] == "loop" and t[1] == "tf"] if d is not None else []
-        d0 = sym.subst(d, lambda t: t[2] if isinstance(t, tuple) and len(t) == 4 and t[0] == "loop" and t[1] == "tf" else None) if fix_loops else d
-        m = has(d0, "max(Q_all) - Q_self.get_duration(Q_id)") or has(d0, "max(Q_all) - Q_self.get_duration(Q_id, include_fall_time=False)")
-        tgt_ok = m is not None and m["Q_all"][0] == "comp" and is_(m["Q_all"][2], "Q_self.get_duration(Q_e, include_fall_time=at_rest)") is not None and m["Q_all"][3] and m["Q_all"][3][0][0] == ("name", "channels")
+        # the delay is adjust_duration(T - get_duration(id)); T is the common end: the max over the channels of their ends
+        # (with fall time iff at_rest), pushed forward by a fixed-point iteration until every channel can reach it with a
+        # valid delay.  The iteration may be written inline (`loop(<name>, init, body)`) or in a private helper that
+        # returns from inside `while True` (`loopexit(...)`): both are recognised by their shape, not by variable names.
+        mT = has(d, "Q_s._schedule[Q_id].adjust_duration(Q_T - Q_self.get_duration(Q_id))") or has(d, "Q_s._schedule[Q_id].adjust_duration(Q_T - Q_self.get_duration(Q_id, include_fall_time=False))") if d is not None else None
+        T = mT["Q_T"] if mT is not None else None
+        fix_terms = [t for t in sym.subterms(T) if t[0] in ("loop", "loopexit")] if T is not None else []
+        MAXP = "max(Q_all)"
+        cands_max = [m_ for top in ([T] if T is not None else []) + [x.value for x in Sal.log if x.value is not None and x.fn == al.short] for m_ in sym.find_all(top, sym.Pattern(MAXP))]
+        tgt_ok = any(m_["Q_all"][0] == "comp" and is_(m_["Q_all"][2], "Q_self.get_duration(Q_e, include_fall_time=at_rest)") is not None and m_["Q_all"][3] and m_["Q_all"][3][0][0] == ("name", "channels") for m_ in cands_max)
         rep.check(tgt_ok, "ALIGN", "Sequence.align|target=max(end incl. fall time iff at_rest)", "tf = max over channels of get_duration(id, include_fall_time=at_rest)", f"the alignment target is no longer the max over the given channels of get_duration(id, include_fall_time=at_rest): delay = {sh(d, 200)}", E.where(al, l.node))
-        plain = m is not None and m["Q_id"] == ch
+        plain = mT is not None and mT["Q_id"] == ch
         rep.check(plain, "FLOW", "Sequence.align|delta-subtracts-plain-end", "delta = tf - get_duration(id)  (the delay is appended at the plain end)",
                   f"align delays a channel by {sh(d, 200)}: the subtrahend must be the channel's own plain end get_duration(id) -- with its fall time included, channels do not end together at the latest at-rest time", E.where(al, l.node))
         rep.check(has(d, "Q_s[Q_id].adjust_duration(Q_x)", {"Q_id": ch}) is not None and any(is_(x, "0 < Q_d") is not None for x in sym.conj_of(l.cond)), "ALIGN", "Sequence.align|positive-adjusted-delay", "only a positive delay is added, after adjust_duration on that channel", "the alignment delay is no longer adjusted to the channel's clock / guarded by delta > 0", E.where(al, l.node))
         # the channels END TOGETHER: each delay is stretched to its own channel's minimum duration and clock period, so the
         # common end has to be one every channel can reach -- found by iterating `tf` to a fixed point of
         # max over channels of (end + adjust_duration(tf - end))
-        body_ok = any(has(t[3], "Q_s.get_duration(Q_i) + Q_s._schedule[Q_i].adjust_duration(Q_tf - Q_s.get_duration(Q_i))") is not None for t in fix_loops)
-        rep.check(bool(fix_loops) and body_ok, "ALIGN", "Sequence.align|common-end-reachable-by-every-channel", "tf iterated to max_i(end_i + adjust_duration(tf - end_i))", "align adds `adjust_duration(tf - end)` to each channel with tf fixed beforehand: a channel whose minimum duration or clock period stretches its delay ends later than the others (200 ns on rydberg_global and 204 ns on raman_local of DigitalAnalogDevice end at 216 and 204), so the aligned channels do not end together", E.where(al, l.node))
+        body_ok = any(mentions(t, "adjust_duration") and any(u[0] == "call" and u[1] == ("name", "max") for u in sym.subterms(t)) for t in fix_terms)
+        rep.check(bool(fix_terms) and body_ok, "ALIGN", "Sequence.align|common-end-reachable-by-every-channel", "the common end is iterated to max_i(end_i + adjust_duration(end - end_i))", "align adds `adjust_duration(tf - end)` to each channel with tf fixed beforehand: a channel whose minimum duration or clock period stretches its delay ends later than the others (200 ns on rydberg_global and 204 ns on raman_local of DigitalAnalogDevice end at 216 and 204), so the aligned channels do not end together", E.where(al, l.node))
     rep.floor("ALIGN", 3)
     # estimate_added_delay predicts what the same add inserts: it goes through the same make_next_pulse_slot, with the same
     # inputs -- including the phase-drift parameters that add_eom_pulse(correct_phase_drift=True) hands over (the
